@@ -219,3 +219,39 @@ def expected_rows(log, n_chain, n_warm, n_main, trace_warm_up):
         seq = per[c]
         rows[c] = seq if trace_warm_up else seq[n_warm:]
     return rows, per
+
+
+def run_real(n_warm, n_main, inits, n_process=1, assignment=None, order=None, seed=20240601, stager="default"):
+    """The real sampler with the REAL numpy Generator, real Hamiltonian transition, real step-size and metric adapters (floats),
+    under the same multiprocessing model: returns the traced positions / accept statistics / final states / adapted parameters."""
+    import mici.systems as S
+    import mici.integrators as IN
+    import mici.transitions as T
+    import mici.adapters as AD
+    install_model()
+    SA.default_rng = np.random.default_rng  # (the token stream needs the identity here; the real generator the real function)
+    ModelPool.assignment = assignment or (lambda c: c)
+    ModelPool.order = order
+    system = S.EuclideanMetricSystem(_nld, grad_neg_log_dens=_grad)
+    integ = IN.LeapfrogIntegrator(system)
+    sampler = SA.StaticMetropolisHMC(system, integ, np.random.default_rng(seed), n_step=2)
+    ads = [AD.DualAveragingStepSizeAdapter(), AD.OnlineVarianceMetricAdapter()]
+    stg = {"default": None, "windowed111": WindowedWarmUpStager(1, 1, 1)}[stager]
+    out = sampler.sample_chains(n_warm, n_main, [np.array([float(x)]) for x in inits], trace_funcs=[_trace_real], adapters=ads, stager=stg,
+                                n_process=n_process, trace_warm_up=True, display_progress=False)
+    install_model()
+    return {"pos": [np.asarray(t).ravel().tolist() for t in out.traces["pos"]],
+            "accept": [np.asarray(a).tolist() for a in out.statistics["accept_stat"]],
+            "final": [float(s.pos[0]) for s in out.final_states]}
+
+
+def _nld(q):
+    return 0.5 * float(q @ q)
+
+
+def _grad(q):
+    return q
+
+
+def _trace_real(state):
+    return {"pos": state.pos}
